@@ -149,7 +149,13 @@ type servedSuspect struct {
 
 func (m *MonC09) OnStepEnd(w *World, step int) {
 	for _, s := range m.suspects {
-		if r := w.Clients[s.conn].Ref.Held[s.rid]; r != nil && r.Episode == s.episode {
+		c := w.Clients[s.conn]
+		if c.Closed || c.EOF || c.Ref.Closed {
+			// a frame read by a client that was closing at the same moment
+			m.class("handed_to_closing_client")
+			continue
+		}
+		if r := c.Ref.Held[s.rid]; r != nil && r.Episode == s.episode {
 			m.viols = append(m.viols, s.v)
 		} else {
 			m.class("handed_and_removed_within_step")
